@@ -293,6 +293,35 @@ def _bright_case(args):
                         f"offset {off_name}: {a},{s} vs "
                         f"{diff.mean() - o},{diff.std()}",
                         {"func": "bright_bc", "off": off_name}))
+                # every selection of returned metrics
+                for rd, want in (("avg", [diff.mean() - o]),
+                                 ("sd", [diff.std()]),
+                                 ("sd,avg", [diff.mean() - o, diff.std()])):
+                    got = bright_bc.get_bright_bc(f, img, bg, bg_off=off,
+                                                  ret_data=rd)
+                    got = list(got) if isinstance(got, (tuple, list)) \
+                        else [got]
+                    if len(got) != len(want) or not np.allclose(got, want):
+                        out.append(violation(
+                            "dclab.features.bright_bc:get_bright_bc",
+                            "wrong-statistic", case,
+                            f"ret_data={rd!r}, offset {off_name}: {got} vs "
+                            f"{want}",
+                            {"func": "bright_bc", "off": off_name,
+                             "ret_data": rd}))
+                if off is None:
+                    for rd, want in (("avg", [vals.mean()]),
+                                     ("sd", [vals.std()])):
+                        got = bright.get_bright(f, img, ret_data=rd)
+                        got = list(got) if isinstance(got, (tuple, list)) \
+                            else [got]
+                        if len(got) != len(want) or not np.allclose(got,
+                                                                    want):
+                            out.append(violation(
+                                "dclab.features.bright:get_bright",
+                                "wrong-statistic", case,
+                                f"ret_data={rd!r}: {got} vs {want}",
+                                {"func": "bright", "ret_data": rd}))
                 p10, p90 = bright_perc.get_bright_perc(f, img, bg,
                                                        bg_off=off)
                 e10, e90 = np.percentile(diff, [10, 90])
